@@ -433,7 +433,7 @@ fn answer_inner(line: &str) -> String {
             let y = arg!(1);
             match (Locale::from_bytes(&x), Locale::from_bytes(&y)) {
                 (Ok(x), Ok(y)) => format!(
-                    "ok eq={} cmp={} rcmp={} he={} se={} lieq={} licmp={}",
+                    "ok eq={} cmp={} rcmp={} he={} se={} lieq={} licmp={} xi={} yi={}",
                     b(x == y),
                     ord(x.cmp(&y)),
                     ord(y.cmp(&x)),
@@ -441,6 +441,8 @@ fn answer_inner(line: &str) -> String {
                     b(x.to_string() == y.to_string()),
                     b(x.id == y.id),
                     ord(x.id.cmp(&y.id)),
+                    render_li(&x.id),
+                    render_li(&y.id),
                 ),
                 _ => "err".to_string(),
             }
